@@ -1123,6 +1123,32 @@ def conc_correspondence(ctx, harness_cmd, driver_cmd, runs, judge=None, label="t
     return len(bad_prop) + len(only_model)
 
 
+def conc_correspondence_batched(ctx, harness_cmd, driver_cmd, runs, judge=None, label="tieC", batch=12000, **kw):
+    """conc_correspondence over a large family in batches (both output streams of a batch are held in
+    memory); the statistics of the batches are summed under one label."""
+    total = None
+    bad = 0
+    for k in range(0, max(1, len(runs)), batch):
+        bad += conc_correspondence(ctx, harness_cmd, driver_cmd, runs[k:k + batch], judge=judge, label=label, **kw)
+        cur = ctx.cov["ties"].get(label, {})
+        if total is None:
+            total = dict(cur)
+        else:
+            for key, v in cur.items():
+                if isinstance(v, (int, float)) and not isinstance(v, bool):
+                    total[key] = total.get(key, 0) + v
+                elif isinstance(v, dict) and isinstance(total.get(key), dict):
+                    for a, b in v.items():
+                        total[key][a] = total[key].get(a, 0) + b if isinstance(b, (int, float)) else b
+                elif key not in total:
+                    total[key] = v
+        if any(f for _, f in ctx.violations) and bad:
+            break           # a failing input is known: the rest of the family adds nothing
+    if total is not None:
+        ctx.cov["ties"][label] = total
+    return bad
+
+
 def tie_a_generated(ctx):
     """Tie A for the pure integer code: lib/c2lean.py translates next_pow_of_2 and the bit / ring /
     endian macros from REPO's C text; the result must equal the committed
